@@ -394,7 +394,7 @@ class RSocketBase(RSocket, RSocketInternal):
             next_fragment = next_frame_source.get_next_fragment(transport.requires_length_header())
 
             if next_fragment.flags_follows:
-                self._send_queue.put_nowait(self._send_queue.get_nowait())  # cycle to next frame source in queue
+                self._cycle_stream_to_back_of_send_queue(next_frame_source.stream_id)
             else:
                 next_frame_source.get_next_fragment(
                     transport.requires_length_header())  # workaround to clean-up generator.
@@ -405,6 +405,24 @@ class RSocketBase(RSocket, RSocketInternal):
         else:
             self._send_queue.get_nowait()
             yield next_frame_source
+
+    def _cycle_stream_to_back_of_send_queue(self, stream_id: int):
+        """
+        Cycle to the next frame source in the queue. All queued frames of the stream currently being fragmented
+        are moved (in order) behind the frames of other streams, so that no frame of that stream is sent
+        before the last fragment.
+        """
+        items = []
+        while not self._send_queue.empty():
+            items.append(self._send_queue.get_nowait())
+
+        for item in items:
+            if item.stream_id != stream_id:
+                self._send_queue.put_nowait(item)
+
+        for item in items:
+            if item.stream_id == stream_id:
+                self._send_queue.put_nowait(item)
 
     async def _sender(self):
         try:
